@@ -292,7 +292,8 @@ class ConsHist(Engine):
         "And, double negation, 2 vs 2.0 vs '2' vs Fraction(2)), ~10% ill-typed constructions, and (async profile) "
         "MemoryError injected at a line event of one construction. non-trivial = >= 10 repeated normal forms AND >= 1 "
         "normalisation case AND (async profile) a fired fault followed by >= 5 judged constructions; distinct = digest of "
-        "(constructor kind, outcome class) sequence"
+        "(constructor kind, outcome class) sequence. Thorough tier: for async scripts every line-event position of the "
+        "faulted construction is tried (<= 400 per script)"
     )
     real_components = ("ExpressionManager (create_node, constructors, auto_promote)", "FNode operators", "TypeChecker")
     stub_components = ()
@@ -463,6 +464,42 @@ class ConsHist(Engine):
                 if not ops[pos].get("ill"):
                     ops[pos]["fault"] = {"kind": "async_mem", "frac": round(rf.random(), 4)}
         return {"engine": self.name, "world": world, "ops": ops}
+
+    def expand(self, script, tier):
+        """Thorough tier: for scripts of the async profile, EVERY line-event position of the first
+        faulted construction is tried (one execution of the whole history per position, at most 400)."""
+        if tier != "thorough":
+            return None
+        ops = script["ops"]
+        idx = [i for i, op in enumerate(ops) if op.get("fault")]
+        if not idx:
+            return None
+        i = idx[0]
+        base = json.loads(json.dumps(script))
+        for j in idx[1:]:
+            del base["ops"][j]["fault"]
+        W2 = World(script["world"])
+        C2 = Cons(W2)
+        for op in ops[:i]:
+            try:
+                C2.build(op["d"])
+            except Exception:
+                pass
+        with LineFault(at=None) as lf:
+            try:
+                C2.build(ops[i]["d"])
+            except Exception:
+                pass
+        n = lf.count
+        positions = list(range(1, n + 1)) if n <= 400 else sorted({1 + (k * n) // 400 for k in range(400)})
+        out = []
+        for v, at in enumerate(positions):
+            sc = dict(base)                      # shares everything but the faulted operation
+            sc["ops"] = list(base["ops"])
+            sc["ops"][i] = dict(base["ops"][i], fault={"kind": "async_mem", "at": at})
+            sc["variant"] = v
+            out.append(sc)
+        return out or None
 
     def execute(self, script, ctx):
         world = script["world"]
